@@ -215,6 +215,16 @@ func replay(args []string) {
 		if len(to.Allowed) > 1 {
 			res.Count("cases_with_choice", 1)
 		}
+		for _, sr := range c.Srcs {
+			if sr.K == "huge" {
+				res.Count("cases.huge", 1)
+				break
+			}
+			if c.Fam == "endpoint" && strings.ContainsAny(sr.V, " %+;?") {
+				res.Count("cases.pathclass", 1)
+				break
+			}
+		}
 		if !inSet(o.Obs, to.Ideal) && ok {
 			res.Count("admitted_non_ideal", 1)
 		}
